@@ -51,7 +51,9 @@ def seq_cases(draw):
     else:   # histories of one method only (e.g. seven infer calls in a row)
         m = draw(st.sampled_from(["infer", "infer", "goto", "complete", "get_signatures"]))
         noise = [(m, k) for k in draw(st.lists(st.integers(0, 10 ** 6), min_size=4, max_size=7))]
-    return {"kind": "seq", "src": src, "pool": pool, "noise": noise}
+    same_callee = draw(st.integers(0, 2)) == 0      # history: infer at up to 7 results of calls to ONE callee
+    return {"kind": "seq", "src": src, "pool": pool, "noise": noise, "same_callee": same_callee,
+            "callee_pick": draw(st.integers(0, 10 ** 6))}
 
 
 def positions(text):
@@ -164,6 +166,30 @@ def run_seq(ctx, case):
         except Exception as e:
             return method, (line, col), ("exc", type(e).__name__)
 
+    if case.get("same_callee"):
+        # history: infer the results of eight calls to ONE callee (an existing call statement repeated), then ask again
+        import re
+        lines_ = text.split("\n")
+        cands = [l_ for l_ in lines_ if re.match(r"(pv_\w+) = (\w+(\.\w+)*)\(.*\)$", l_) and "lambda" not in l_]
+        if cands:
+            rhs = cands[case["callee_pick"] % len(cands)].split(" = ", 1)[1]
+            # insert before the final prints so that the text stays a program
+            cut = next((i_ for i_, l_ in enumerate(lines_) if l_.startswith("print(")), len(lines_))
+            extra = ["rep_call_%d = %s" % (i_, rhs) for i_ in range(8)]
+            lines_[cut:cut] = extra
+            text = "\n".join(lines_)
+            pos = positions(text)
+            first_tok = {}
+            for k_, (l, c) in enumerate(pos):
+                first_tok.setdefault(l, k_)
+            ks = [first_tok[cut + 1 + i_] for i_ in range(8) if cut + 1 + i_ in first_tok]
+            if len(ks) == 8:
+                case = dict(case, noise=[("infer", k_) for k_ in ks[:-1]], late=("infer", ks[-1] - 1))
+                nlines = len(corpus.split_lines(text))
+                ctx.cls("history:eight-infers-of-one-callee")
+                if path:
+                    from pathlib import Path as _P
+                    _P(path).write_text(text)
     devs = []
     with core.time_limit(240):
         s = boot.fresh_script(text, path=path, project=project)
@@ -187,7 +213,7 @@ def run_seq(ctx, case):
         if f[2] != a[2] and ("exc" in (f[2][:1] + a[2][:1])):
             ctx.cls("not-judged:internal-exception(C01)")
         elif f[2] != a[2]:
-            devs.append(("same-script-answer-changed:%s:%s" % (f[0], diff_kind(f[2], a[2])), "%s at %s in %s: first %s, after %s: %s" % (
+            devs.append(("same-script-answer-changed:%s:%s" % (f[0], "unstable" if f[0] == "get_references" else diff_kind(f[2], a[2])), "%s at %s in %s: first %s, after %s: %s" % (
                 f[0], f[1], case["src"]["origin"], str(f[2])[:200], [(b[0], b[1]) for b in between], str(a[2])[:200])))
     for a, f in zip(again + [late_ans], fresh):
         ctx.count()
@@ -199,6 +225,8 @@ def run_seq(ctx, case):
                 kind = "location"          # same names, reported at another place (stub vs module)
             elif kind not in ("order",) and not kind.startswith("fields="):
                 kind = "different-results"
+            if a[0] == "get_references":
+                kind = "unstable"      # one family: get_references results depend on what was inferred before
             devs.append(("answer-depends-on-query-history:%s:%s" % (a[0], kind), "%s at %s in %s: after history %s -> %s ; fresh Script -> %s" % (
                 a[0], a[1], case["src"]["origin"], [(b[0], b[1]) for b in between], str(a[2])[:200], str(f[2])[:200])))
     ctx.sample({"origin": case["src"]["origin"], "pool": [(f[0], f[1]) for f in first], "between": [(b[0], b[1], "raised" if b[2] and b[2][0] == "exc" else "ok") for b in between]}, limit=3)
